@@ -115,7 +115,7 @@ def gen_op(rng, mode, n_objects):
     if kind == "now":
         return ["now", rng.random() < 0.4]
     if kind in ("from_epoch", "props_from_epoch", "strptime_s"):
-        limit = 10 ** 11 if rng.random() < 0.03 else 10 ** 10
+        limit = 10 ** 11 if rng.random() < 0.08 else 10 ** 10
         n = gen_n(rng, mode, limit)
         if kind == "from_epoch":
             if n >= 0 and rng.random() < 0.25:
